@@ -24,7 +24,7 @@ PROP = "C12"
 INVS = ("TypeOK C12_AllOrNothing C12_Contents C12_PrereqOnCurrentZone C12_OneSOA C12_ApexNS C12_CnameAlone "
         "C12_SerialIffChanged C12_PseudoProseAgree")
 
-GEN_CFG = ["SPECIFICATION GSpec", "CONSTANTS", "  Apex <- AP", "  InitZones <- P_Zones", "  InitSers <- P_Sers",
+GEN_CFG = ["SPECIFICATION GSpec", "CONSTANTS", "  Apex <- AP", "  InitZones <- P_Zones", "  InitSers <- P_Sers", "  Signeds <- P_Signeds",
            "  Msgs <- P_Zones", "  MsgsAt <- P_MsgsAt", "  SimPre <- P_SimPre", "  SimUpd <- P_SimUpd", "  MaxMsgs = {n}",
            "INVARIANT Emit GenSound", "CHECK_DEADLOCK FALSE"]
 
@@ -39,11 +39,20 @@ GENS = [
     # the half-space boundary: SOA update RR at distance 2^31-1 / 2^31 / 2^31+1 from the zone serial, alone
     # and with a content change in the same message, then one more message
     ("half", "{Z1}", "HalfSers", "<<MsgsHalf, MsgsAfter>>", 2, None, ("quick", "thorough")),
+    # types above 255 (CAA, URI 256, private use 65280): CNAME vs other data on both sides of 251..255; signed and unsigned
+    ("hi1", "{Z4, Z1}", "{S10}", "<<MsgsHi1 \\cup MsgsHi2 \\cup MsgsHiP>>", 1, None, ("quick", "thorough")),
+    ("hi2", "{Z4}", "{S10}", "<<MsgsHi1, MsgsHi1>>", 2, None, ("quick", "thorough")),
+    # DNSSEC-signed zones (NSEC, re-signed after every update): same oracle, same universe
+    ("sgn1", "{Z1, Z2, Z3}", "{S10}", "<<Msgs1u \\cup MsgsCn \\cup Msgs1p>>", 1, None, ("quick",)),
+    ("sgn2", "{Z1}", "{S10}", "<<SetupLite, Msgs1u>>", 2, None, ("quick", "thorough")),
+    ("sgnfull", "{Z1, Z2, Z3, Z4}", "{S10}", "<<Msgs1 \\cup Msgs2g \\cup MsgsCn>>", 1, None, ("thorough",)),
     # two messages: every well-formed single-RR update, then a prerequisite probe or another update
     ("two", "{Z1}", "{S10}", "<<Setup, Msgs1u \\cup Msgs1p>>", 2, None, ("quick",)),
     ("twofull", "{Z1, Z2, Z3}", "{S10}", "<<Setup, Msgs1u \\cup Msgs1p>>", 2, None, ("thorough",)),
     ("three", "{Z1}", "{S10}", "<<SetupLite, SetupLite, Msgs1u \\cup Msgs1p>>", 3, None, ("thorough",)),
 ]
+# the `signed` dimension of a generator (default: unsigned zones only)
+SIGNED = {"hi1": "BOOLEAN", "hi2": "BOOLEAN", "sgn1": "{TRUE}", "sgn2": "{TRUE}", "sgnfull": "{TRUE}", "sim": "BOOLEAN"}
 # long histories by simulation: (num, depth)
 SIM = {"quick": (1500, 90), "thorough": (20000, 90)}
 SIM_DEF = ("sim", "{Z1, Z2, Z3}", "{S10, SNear, SHalf}", "[k \\in 1..6 |-> {}]", 6)
@@ -263,10 +272,10 @@ def generate(wd, tier, seed):
     def one(g, sim):
         name, zones, sers, msgsat, n = g[0], g[1], g[2], g[3], g[4]
         tla, cfg = vlib.wrapper(wd, "G_" + name, "Gen_Update_U",
-                                {"P_Zones": zones, "P_Sers": sers, "P_MsgsAt": msgsat,
+                                {"P_Zones": zones, "P_Sers": sers, "P_MsgsAt": msgsat, "P_Signeds": SIGNED.get(name, "{FALSE}"),
                                  "P_SimPre": "PreRRs" if sim else "{}", "P_SimUpd": "UpdRRs" if sim else "{}"},
                                 [ln.format(n=n) for ln in GEN_CFG])
-        cases, st = vlib.gen(tla, cfg, wd, workers=4, timeout=1500, simulate=sim, seed=seed)
+        cases, st = vlib.gen(tla, cfg, wd, workers=2, timeout=1500, simulate=sim, seed=seed)
         for i, c in enumerate(cases):
             c["id"] = f"{name}-{i}"
         if not cases:
@@ -377,7 +386,7 @@ def run(res, tier, seed):
         traces += [j[0] for j in rjobs]
         for c, st in mcf.result():
             res.add_mc(c, st)
-    mism, tst, n_msgs, notes = monitor(res, wd, traces, shards=12 if tier == "thorough" else 8)
+    mism, tst, n_msgs, notes = monitor(res, wd, traces, shards=6)
     # ---- accounting
     n_rand_cases = 0
     for (_t, o, _a) in rjobs:
